@@ -25,8 +25,8 @@ type chunk struct {
 // scriptBackend returns the scripted chunks one Read at a time and io.EOF when
 // the script is exhausted. Writes are recorded; optional write script.
 type scriptBackend struct {
-	failSize   bool // SetSize reports an error (the buffers must be resized all the same)
-	afterEnd   int // consecutive reads after the script ran out
+	failSize  bool // SetSize reports an error (the buffers must be resized all the same)
+	afterEnd  int  // consecutive reads after the script ran out
 	script    []chunk
 	delivered int
 	reads     int
@@ -200,10 +200,10 @@ type event struct {
 
 type recFrontend struct {
 	staleCalls int // callbacks that arrived through a frontend already replaced by SetFrontend
-	term   te.Terminal
-	vt     *te.VerifTerm
-	gmode  bool
-	events []event
+	term       te.Terminal
+	vt         *te.VerifTerm
+	gmode      bool
+	events     []event
 
 	// shadow copy of the active screen, refreshed only from announcements
 	shadow     [][]cell
@@ -224,7 +224,8 @@ type recFrontend struct {
 }
 
 func newRecFrontend() *recFrontend {
-	return &recFrontend{vflags: map[int]bool{}, vints: map[int]int{}, vstrs: map[int]string{}}
+	// what a frontend assumes before it is told anything: the cursor is shown (VFShowCursor = 1)
+	return &recFrontend{vflags: map[int]bool{1: true}, vints: map[int]int{}, vstrs: map[int]string{}}
 }
 
 func (f *recFrontend) probe() {
@@ -350,8 +351,8 @@ type impl struct {
 	lastRows []string
 	wrMark   int
 	evMark   int
-	live *liveFrontend // the frontend object the terminal currently holds
-	keptLine *te.Line // a row fetched after the previous step (must not change under the caller)
+	live     *liveFrontend // the frontend object the terminal currently holds
+	keptLine *te.Line      // a row fetched after the previous step (must not change under the caller)
 	keptText string
 	keptW    int
 	keptY    int
@@ -416,6 +417,10 @@ func (l *liveFrontend) ViewStringChanged(v te.ViewString, value string) {
 // recorder; the old one must not be called again.
 func (im *impl) swapFrontend() {
 	nf := &liveFrontend{rec: im.fe}
+	// the new frontend has seen none of the earlier notifications: SetFrontend brings it up to
+	// date (cursor, rendition, view state); the screen content it reads for itself
+	im.fe.haveCursor, im.fe.haveStyle = false, false
+	im.fe.vflags, im.fe.vints, im.fe.vstrs = map[int]bool{1: true}, map[int]int{}, map[int]string{}
 	im.term.SetFrontend(nf)
 	if im.live != nil {
 		im.live.dead = true
@@ -458,7 +463,7 @@ func (im *impl) consumed() int { return im.be.delivered - im.vt.Buffered() }
 // obs renders the canonical observation block (same text as the Lean driver).
 type obsBlock struct {
 	G, M, A, V, E, W string
-	L                string // rows announced through ScrollLines during the step
+	L                string            // rows announced through ScrollLines during the step
 	rows             map[string]string // "b y" -> cells (changed rows only, unless full)
 	all              map[string]string // every row
 	X                string            // framing note (driver only)
